@@ -113,6 +113,19 @@ CHECKS['C18'] = dict(
          'satisfy their rigid-body laws as SMT obligations (exact reals).',
     note='Trusted: z3; elementary rotations generate SO(3); isolation is decided by identity of the symbolic terms.', design='3/C18',
     technique=SYMX + '; exhaustive operation sequences within the bound')
+CHECKS['C06'] = dict(
+    text='Glue: the real Alignment (setters, align_molecules, remove_hydrogens, bonds_distance, are_connected) on symbolic coordinates for both size orders and ties, hydrogen masks, '
+         'restraint lists and deformation subsets, with the optimiser replaced by a recorder returning fresh symbolic coordinates: who is translated and by what, what the optimiser '
+         'receives, where its result is written, caller molecules untouched - as SMT / term-identity obligations.  Step: one iteration of the real Monte-Carlo loop with symbolic '
+         'draws: translation and rotation proposals preserve all pairwise distances (rotation matrix proved orthogonal on the path).',
+    note='Trusted: z3; the recorder contract (same shape); the single-atom move is decided in C07 and the loop bookkeeping in C09; bit-identical repeatability for a seed is outside the claim.',
+    design='3/C06', technique=SYMX + '; contract stub for the optimiser + one-step invariant of the real loop')
+CHECKS['C09'] = dict(
+    text='Real _minimize_molecules and accept_metropolis with every random draw symbolic and the overlap measure an uninterpreted positive energy: every path through <= 3 (quick) / '
+         '4 (thorough) iterations; the harness replays the specified bookkeeping and the solver decides, per iteration, the energy pair handed to the rule, the Metropolis decision, '
+         'the proposal transformation and its kind, the counter/reset logic, the exact stop and the returned configuration.',
+    note='Trusted: z3; stubs for Chi2Calculator (C08), move_mol_atom (C07) and progress output; 0.01 enters as its binary64 value; energies > 0.',
+    design='3/C09', technique=SYMX + '; randomness as symbolic input; bounded unrolling of the loop')
 NOT_YET = {}
 def main():
     props = [json.loads(l) for l in open(os.path.join(HERE, 'properties.jsonl'))]
